@@ -293,6 +293,9 @@ impl PreferenceManager {
         if !is_dir_shim(rules_dir) {
             bail!("Unable to find MathCAT Rules directory '{}'", rules_dir.to_string_lossy())
         }
+        if self.rules_dir != rules_dir {
+            self.sys_prefs_file = None;     // the 'prefs.yaml' that was read (if any) belongs to another directory
+        }
         self.rules_dir = rules_dir.to_path_buf();
         return Ok( () );
     }
